@@ -13,6 +13,7 @@ import QlibcModel.Conf.AconfFlat
 import QlibcModel.Conf.AconfNested
 import QlibcModel.Conf.AconfMalformed
 import QlibcModel.Conf.AconfNoNl
+import QlibcModel.Shapes.Conf
 namespace Qlibc.Props.C20
 open Qlibc Qlibc.Conf Qlibc.Conf.Aconf
 
